@@ -59,15 +59,141 @@ class Curve:
     def dbl(self, P):
         return self.add(P, P)
 
-    def mul(self, P, n):
+    def mul_affine(self, P, n):
+        """Reference scalar multiplication: left-to-right double-and-add on the affine law."""
         if n < 0:
-            return self.mul(self.neg(P), -n)
+            return self.mul_affine(self.neg(P), -n)
         R = None
         for bit in bin(n)[2:]:
             R = self.add(R, R)
             if bit == "1":
                 R = self.add(R, P)
         return R
+
+    def mul(self, P, n):
+        """Scalar multiplication.  Same left-to-right ladder, carried out in Jacobian
+        coordinates (EFD dbl-2007-bl / madd-2007-bl) with one inversion at the end; the
+        self-test cross-checks it against ``mul_affine`` exhaustively on small curves and
+        on random inputs of the real curves at every start-up."""
+        if P is None or n == 0:
+            return None
+        if n < 0:
+            return self.mul(self.neg(P), -n)
+        if self.F.k == 1:
+            return self._mul_fp(P, n)
+        F = self.F
+        mul, sqr, add, sub, smul = F.mul, F.sqr, F.add, F.sub, F.smul
+        x2, y2 = P
+        a = self.a
+        a_zero = self._a_zero
+        X = Y = Z = None            # None = infinity
+        for bit in bin(n)[2:]:
+            if X is not None:
+                if F.is_zero(Y):
+                    X = None
+                else:
+                    XX, YY, ZZ = sqr(X), sqr(Y), sqr(Z)
+                    YYYY = sqr(YY)
+                    S = smul(sub(sub(sqr(add(X, YY)), XX), YYYY), 2)
+                    M = smul(XX, 3)
+                    if not a_zero:
+                        M = add(M, mul(a, sqr(ZZ)))
+                    T = sub(sqr(M), smul(S, 2))
+                    Z = sub(sub(sqr(add(Y, Z)), YY), ZZ)
+                    Y = sub(mul(M, sub(S, T)), smul(YYYY, 8))
+                    X = T
+            if bit == "1":
+                if X is None:
+                    X, Y, Z = x2, y2, F.one
+                else:
+                    Z1Z1 = sqr(Z)
+                    U2 = mul(x2, Z1Z1)
+                    S2 = mul(mul(y2, Z), Z1Z1)
+                    if U2 == X:
+                        if S2 == Y:
+                            # doubling of the accumulated point
+                            R = self.add(self._jac_to_aff(X, Y, Z), P)
+                            if R is None:
+                                X = None
+                            else:
+                                X, Y, Z = R[0], R[1], F.one
+                        else:
+                            X = None
+                    else:
+                        H = sub(U2, X)
+                        HH = sqr(H)
+                        I = smul(HH, 4)
+                        J = mul(H, I)
+                        r = smul(sub(S2, Y), 2)
+                        V = mul(X, I)
+                        X3 = sub(sub(sqr(r), J), smul(V, 2))
+                        Y3 = sub(mul(r, sub(V, X3)), smul(mul(Y, J), 2))
+                        Z = sub(sub(sqr(add(Z, H)), Z1Z1), HH)
+                        X, Y = X3, Y3
+        if X is None:
+            return None
+        return self._jac_to_aff(X, Y, Z)
+
+    def _jac_to_aff(self, X, Y, Z):
+        F = self.F
+        if F.is_zero(Z):
+            return None
+        zi = F.inv(Z)
+        zi2 = F.sqr(zi)
+        return (F.mul(X, zi2), F.mul(Y, F.mul(zi2, zi)))
+
+    def _mul_fp(self, P, n):
+        p = self.F.p
+        a = self.a[0]
+        x2, y2 = P[0][0], P[1][0]
+        inf = True
+        X = Y = Z = 0
+        for bit in bin(n)[2:]:
+            if not inf:
+                if Y == 0:
+                    inf = True
+                else:
+                    XX, YY, ZZ = X * X % p, Y * Y % p, Z * Z % p
+                    YYYY = YY * YY % p
+                    S = 2 * ((X + YY) ** 2 - XX - YYYY) % p
+                    M = (3 * XX + a * ZZ * ZZ) % p
+                    T = (M * M - 2 * S) % p
+                    Z = ((Y + Z) ** 2 - YY - ZZ) % p
+                    Y = (M * (S - T) - 8 * YYYY) % p
+                    X = T
+            if bit == "1":
+                if inf:
+                    X, Y, Z, inf = x2, y2, 1, False
+                else:
+                    Z1Z1 = Z * Z % p
+                    U2 = x2 * Z1Z1 % p
+                    S2 = y2 * Z * Z1Z1 % p
+                    if U2 == X:
+                        if S2 == Y:
+                            zi = pow(Z, -1, p)
+                            R = self.add(((X * zi * zi % p,), (Y * zi * zi * zi % p,)), P)
+                            if R is None:
+                                inf = True
+                            else:
+                                X, Y, Z = R[0][0], R[1][0], 1
+                        else:
+                            inf = True
+                    else:
+                        H = (U2 - X) % p
+                        HH = H * H % p
+                        I = 4 * HH % p
+                        J = H * I % p
+                        r = 2 * (S2 - Y) % p
+                        V = X * I % p
+                        X3 = (r * r - J - 2 * V) % p
+                        Y3 = (r * (V - X3) - 2 * Y * J) % p
+                        Z = ((Z + H) ** 2 - Z1Z1 - HH) % p
+                        X, Y = X3, Y3
+        if inf or Z == 0:
+            return None
+        zi = pow(Z, -1, p)
+        zi2 = zi * zi % p
+        return ((X * zi2 % p,), (Y * zi2 * zi % p,))
 
     def lift_x(self, x):
         """All points with this x-coordinate (0, 1 or 2 of them)."""
